@@ -1674,8 +1674,16 @@ func fragmentsAreRebased(c *core.Ctx) {
 						rebased = true // some option is passed: judged by name below
 					}
 				}
+				// or: whoever reports errors for the fragment's syntax tree substitutes
+				// the position of the enclosing token while it works on it
+				how := ""
+				if !rebased {
+					if by := positionOverriddenWhileCompilingFragments(p); by != "" {
+						rebased, how = true, by
+					}
+				}
 				c.Check(rebased, core.SSAName(fn)+"|nested-parse-rebased", p.Pos(call.Pos()),
-					fn.Name()+" parses a fragment of the source with a parser run that knows where the fragment starts"+ifs(!rebased, ": the nested run is given no position, so errors inside the fragment carry line 1, column n of the fragment instead of the place in the source"))
+					fn.Name()+" parses a fragment of the source with a parser run that knows where the fragment starts"+ifs(how != "", " - it does not, but "+how)+ifs(!rebased, ": the nested run is given no position, so errors inside the fragment carry line 1, column n of the fragment instead of the place in the source"))
 			}
 		}
 	}
@@ -1816,4 +1824,65 @@ func holdsSyntax(t types.Type, d int) bool {
 		return holdsSyntax(u.Elem(), d+1)
 	}
 	return false
+}
+
+// positionOverriddenWhileCompilingFragments: the compiler's error formatter
+// reads a position field of the Compiler in preference to the position it is
+// given, and the function that compiles the expressions of a template string
+// sets that field (from the string's own token) before it compiles them and
+// puts the previous value back afterwards.
+func positionOverriddenWhileCompilingFragments(p *core.Program) string {
+	cp := p.Pkg("compiler")
+	compT := core.MustType(cp, "Compiler")
+	st := compT.Underlying().(*types.Struct)
+	for fi := 0; fi < st.NumFields(); fi++ {
+		pt, ok := st.Field(fi).Type().(*types.Pointer)
+		if !ok || !core.IsNamed(pt.Elem(), pkgPath("token"), "Position") {
+			continue
+		}
+		var reader, setter string
+		for _, fn := range repoFns(p, "compiler") {
+			reads, formats := false, false
+			sets, restores, compilesExprs := 0, false, false
+			for _, b := range fn.Blocks {
+				for _, in := range b.Instrs {
+					switch x := in.(type) {
+					case *ssa.UnOp:
+						if fa, ok := x.X.(*ssa.FieldAddr); ok && fa.Field == fi && core.NamedOf(fa.X.Type()) == compT {
+							reads = true
+						}
+					case *ssa.Store:
+						if fa, ok := x.Addr.(*ssa.FieldAddr); ok && fa.Field == fi && core.NamedOf(fa.X.Type()) == compT {
+							sets++
+							if _, isLoad := x.Val.(*ssa.UnOp); isLoad {
+								restores = true
+							}
+							if _, isPhi := x.Val.(*ssa.Phi); isPhi {
+								restores = true
+							}
+						}
+					case *ssa.Call:
+						if cal := x.Call.StaticCallee(); cal != nil {
+							if cal.Name() == "TemplateExpressions" {
+								compilesExprs = true
+							}
+							if cal.Pkg != nil && cal.Pkg.Pkg.Path() == "fmt" {
+								formats = true
+							}
+						}
+					}
+				}
+			}
+			if reads && formats && sets == 0 {
+				reader = fn.Name()
+			}
+			if compilesExprs && sets >= 2 && restores {
+				setter = fn.Name()
+			}
+		}
+		if reader != "" && setter != "" {
+			return setter + " sets Compiler." + st.Field(fi).Name() + " to the position of the enclosing string while it compiles the fragment's expressions, and " + reader + " reports that position"
+		}
+	}
+	return ""
 }
